@@ -43,11 +43,11 @@ func runC01(r *Run) {
 	defer func() { w.Destroy() }()
 	const tbl = "projects/p/instances/i/tables/t"
 	model := newBTModel()
-	gen := &btGen{fams: []string{"f1", "f2"}, unknown: "nofam", bigVals: true}
+	gen := &btGen{fams: []string{"f1", "f12"}, unknown: "nofam", bigVals: true}
 	ps := r.T.S("prog.0")
 	bigLists := cfg.Intn(5) == 4 // one run in five carries very long mutation lists
 
-	create := btOp{Kind: "CreateTable", Parent: "projects/p/instances/i", TableID: "t", Fams: map[string]*btapbGc{"f1": nil, "f2": nil}}
+	create := btOp{Kind: "CreateTable", Parent: "projects/p/instances/i", TableID: "t", Fams: map[string]*btapbGc{"f1": nil, "f12": nil}}
 	if k, msg := model.step(create, execOp(w, create), clk.ServerUs); k != "" {
 		r.Fail(k, "", "%s", msg)
 		return
